@@ -19,7 +19,8 @@
   (`if (inv_W[k] != 0)`); the model adds `0` there.
 
   The theorems (Lemmas/Ls/Svd*.lean, Props/C01|C03|C20/Svd.lean) are about THESE functions, with
-  the factorisation `A = U diag(W) Vᵀ` taken as a certificate hypothesis.  The tolerance is a
+  the factorisation `A = U diag(W) Vᵀ` as a hypothesis on the factors — proved for the factors
+  `Svd.decompose` returns (Lemmas/Ls/SvdDecompCert.lean; Props/*/SvdDecompose.lean).  The tolerance is a
   parameter (`wTol` does not terminate in exact arithmetic: `1 + eps == 1` never holds in a field).
 -/
 import Gama.Model.Ls.Common
